@@ -21,11 +21,17 @@ def write_cfg(path, text):
 # ------------------------------------------------------------------ 2. streaming replay
 
 def _replay_part(args):
-    wd, part, aset, nmax = args
+    wd, part, aset, nmax = args[:4]
+    nbig = args[4] if len(args) > 4 else ()
     cfg = write_cfg(os.path.join(wd, 'BlockInt-%d.cfg' % part),
-                    'CONSTANTS P = %d T = %d PAD = 64 NMax = %d\nCONSTANT AS = {%s}\n'
+                    'CONSTANTS P = %d T = %d PAD = 64 NMax = %d\nCONSTANT AS = {%s}\nCONSTANT NBig = {%s}\n'
                     'SPECIFICATION Spec\nINVARIANT RemRange\nINVARIANT FileLen\nINVARIANT FinalBlocks\n'
-                    'INVARIANT FinalWhole\nINVARIANT ApaAgrees\nCHECK_DEADLOCK FALSE\n' % (P, T, nmax, ', '.join(map(str, aset))))
+                    'INVARIANT FinalWhole\nINVARIANT ApaAgrees\nCHECK_DEADLOCK FALSE\n' % (
+                        P, T, nmax, ', '.join(map(str, aset)), ', '.join(map(str, nbig))))
+    big = b''
+    if nbig:
+        big = bytes(((i % 251) * 7 + ((i // 251) % 241) * 13 + 1) % 256 or 1 for i in range(max(aset) + max(nbig)))
+        big = big.replace(b'@', b'A')
     bad, drift, count = [], 0, 0
     sample = []
 
@@ -34,7 +40,7 @@ def _replay_part(args):
         v = core.parse_tla_value(line.strip())
         _, a, c, n, rem2, kimpl = v
         count += 1
-        data = CODE[:a + n]
+        data = CODE[:a + n] if a + n <= len(CODE) else big[:a + n]
         first = [data[:a]] if c == 0 else [data[:a // 2], data[a // 2:a]]
         fin = FINALISERS[(a + n + c) % 3]
         try:
@@ -77,6 +83,11 @@ def stream_replay(rep, wd, tier, seed):
     parts = core.split(aset, core.NCPU)
     with ProcessPoolExecutor(len(parts)) as ex:
         outs = list(ex.map(_replay_part, [(wd, i, p, nmax) for i, p in enumerate(parts)]))
+    # single writes of a megabyte and more (over a thousand blocks in one call)
+    bigset = (1012 * 1200, 1012 * 1200 + 1, 1100000, 2000003)
+    ob = _replay_part((wd, 99, [0, 5, 1011, 1012], 0, bigset))
+    outs.append(ob)
+    nbigbeh = ob['count']
     total = 0
     for o in outs:
         rep.states += o['dist']
@@ -92,7 +103,8 @@ def stream_replay(rep, wd, tier, seed):
     rep.replayed += total
     rep.tlc_runs.append({'run': 'BlockInt P=1012 streaming', 'behaviours': total,
                          'first_writes': len(aset), 'next_lengths': nmax + 1})
-    expected = 2 * len(aset) * (nmax + 1)
+    expected = 2 * len(aset) * (nmax + 1) + nbigbeh
+    rep.extra['single_writes_of_a_megabyte'] = nbigbeh
     if total != expected:
         raise core.MachineryError('BlockInt printed %d behaviours, expected %d' % (total, expected))
     rep.extra['stream_exhaustive_over'] = 'first write in %s x split in {one call, two calls} x next write 0..%d' % (
@@ -256,7 +268,7 @@ def replay(rep, wd, payload):
     p = payload['payload']
     if 'a' in p:
         a, c, n = p['a'], p['split'], p['n']
-        data = CODE[:a + n]
+        data = CODE[:a + n] if a + n <= len(CODE) else big[:a + n]
         first = [data[:a]] if c == 0 else [data[:a // 2], data[a // 2:a]]
         got = drv.run_blocker(first + [data[a:]], p['finaliser'])
         k = min_blocks(a + n)
